@@ -10,17 +10,31 @@ package main
 // what arrives and play scripted responses. The driver chooses every
 // segmentation and delivery order. Oracle: what the upstream recorded / the
 // client saw equals what was sent, modulo the reference route rewrite.
+//
+// Statement-level runs (c07PageRace): handler goroutines are adopted as tasks,
+// fabio's watchNoRouteHTML runs as a task on a registry stand-in that the
+// driver feeds, so that a request without a route races the replacement of the
+// no-route page. Oracle: the client gets, completely and well framed, exactly
+// one of the pages that were configured while the request was handled.
 
 import (
 	"bytes"
 	"fmt"
+	"log"
+	"net/http"
+	"runtime"
 	"strings"
+	"sync"
+	"sync/atomic"
+	"testing/synctest"
 	"time"
 
 	"github.com/fabiolb/fabio/config"
 	"github.com/fabiolb/fabio/internal/zzverif/simcore"
+	"github.com/fabiolb/fabio/internal/zzverif/simhook"
 	"github.com/fabiolb/fabio/internal/zzverif/simnet"
 	"github.com/fabiolb/fabio/noroute"
+	"github.com/fabiolb/fabio/registry"
 )
 
 func init() {
@@ -36,13 +50,38 @@ type c07Route struct {
 	Key     string `json:"upstream"`
 }
 
+// c07PageChange is a no-route page that the registry delivers while the run is under way.
+type c07PageChange struct {
+	HTML    string `json:"-"`
+	Page    string `json:"page"`
+	Anytime bool   `json:"at_any_time,omitempty"` // false: delivered while a request without a route is being handled
+}
+
 type c07Scenario struct {
 	Routes        []c07Route `json:"routes"`
 	NoRouteStatus int        `json:"noroute_status"`
-	NoRouteHTML   string     `json:"noroute_html"`
+	NoRouteHTML   string     `json:"-"`
+	NoRoutePage   string     `json:"noroute_page"`
 	NoRoutePrev   string     `json:"noroute_html_before"`
 	Clients       []h2Client `json:"clients"`
 	Faults        bool       `json:"faults"`
+	// Tasked: handler goroutines are tasks (one statement of HTTPProxy.ServeHTTP / noroute per step) and fabio's own
+	// watchNoRouteHTML, a task as well, installs the pages of Changes as the registry stand-in delivers them.
+	Tasked  bool            `json:"statement_level,omitempty"`
+	Stick   int             `json:"stick,omitempty"`
+	Changes []c07PageChange `json:"noroute_page_changes,omitempty"`
+}
+
+// pages of very different lengths: none, one byte, a line, and two that exceed net/http's response buffer
+var c07Pages = []string{"", "<html>no route</html>", "plain text page", "x",
+	"<html><!-- large page -->" + strings.Repeat("0123456789abcdef", 190) + "</html>",
+	"<html><!-- larger page -->" + strings.Repeat("fedcba9876543210", 560) + "</html>\n"}
+
+func c07PageDesc(p string) string {
+	if len(p) <= 40 {
+		return fmt.Sprintf("%q", p)
+	}
+	return fmt.Sprintf("%q... (%d bytes)", p[:30], len(p))
 }
 
 var c07Methods = []string{"GET", "GET", "POST", "PUT", "HEAD", "DELETE", "PATCH", "OPTIONS", "PURGE"}
@@ -131,9 +170,19 @@ func c07Gen(g *simcore.Tape, thorough bool) *c07Scenario {
 		sc.Routes = append(sc.Routes, rt)
 	}
 	sc.NoRouteStatus = simcore.Pick(g, []int{404, 404, 503, 1000, 0, 200})
-	sc.NoRouteHTML = simcore.Pick(g, []string{"", "<html>no route</html>", "plain text page"})
+	sc.NoRouteHTML = simcore.Pick(g, c07Pages)
+	sc.NoRoutePage = c07PageDesc(sc.NoRouteHTML)
 	sc.NoRoutePrev = simcore.Pick(g, []string{"", "<html>earlier page</html>"})
 	sc.Faults = g.Chance(25)
+	sc.Tasked = g.Chance(35)
+	if sc.Tasked {
+		sc.Stick = []int{1, 1, 3, 8}[g.Intn(4)]
+		n := g.Range(1, 5)
+		for i := 0; i < n; i++ {
+			p := simcore.Pick(g, c07Pages)
+			sc.Changes = append(sc.Changes, c07PageChange{HTML: p, Page: c07PageDesc(p), Anytime: g.Chance(25)})
+		}
+	}
 	maxBody := 20000
 	if thorough {
 		maxBody = 200000
@@ -149,6 +198,9 @@ func c07Gen(g *simcore.Tape, thorough bool) *c07Scenario {
 			rq.Route = g.Intn(nr + 1)
 			if rq.Route == nr && g.Chance(60) {
 				rq.Route = g.Intn(nr)
+			}
+			if sc.Tasked && g.Chance(50) {
+				rq.Route = nr // statement-level runs are about the no-route answer
 			}
 			rq.Method = simcore.Pick(g, c07Methods)
 			if rq.Route < nr {
@@ -258,6 +310,194 @@ var c07ReqAddOK = map[string]bool{"X-Forwarded-For": true, "X-Forwarded-Proto": 
 	"X-Forwarded-Prefix": true, "Forwarded": true, "X-Real-Ip": true, "Content-Length": true, "X-Sim-Id": true}
 var c07RespAddOK = map[string]bool{"Date": true, "Content-Type": true, "Content-Length": true}
 
+// c07Backend is the registry stand-in of statement-level runs: only the no-route page channel is used.
+type c07Backend struct {
+	registry.Backend
+	html chan string
+}
+
+func (b *c07Backend) WatchNoRouteHTML() chan string { return b.html }
+
+// c07PageObs keeps what the oracle needs to know about page replacements: which pages may have been the configured
+// one while a given request was inside the handler.
+type c07PageObs struct {
+	mu        sync.Mutex
+	pages     []string // pages[0] is configured when the run starts, pages[i] is the i-th delivery of the registry
+	ch        chan string
+	fed       int // deliveries handed to fabio's watcher so far
+	watcher   *simhook.Task
+	perConn   map[string]int
+	entry     map[string]int // request id -> oldest page that may still be configured when the handler is entered
+	exit      map[string]int // request id -> newest page that may already be configured when the handler returns
+	inFlight  int
+	inNoRoute int         // handlers of requests without a route that have not returned
+	closed    bool        // the clients are through: nothing is delivered any more
+	ending    atomic.Bool // teardown: the watcher ends at its next log line
+}
+
+// c07LogSeam is the log output of a statement-level run. watchNoRouteHTML is an endless loop; the harness ends it
+// at a place where it holds nothing: inside the log line it writes after having installed a last, artificial page.
+// (Ending it by the task layer's statement budget instead can strike between a Lock and its Unlock in the page
+// store and leave a process-wide lock held for every later run of the worker.)
+type c07LogSeam struct{ o *c07PageObs }
+
+func (s c07LogSeam) Write(b []byte) (int, error) {
+	if s.o.ending.Load() && simhook.CurrentTask() == "watchNoRouteHTML" {
+		runtime.Goexit()
+	}
+	return len(b), nil
+}
+
+// endWatcher lets every handler return and the watcher install what it was given, then ends the watcher.
+func (o *c07PageObs) endWatcher(r *simcore.Run, e *h2Env) bool {
+	o.mu.Lock()
+	o.closed = true
+	o.mu.Unlock()
+	idle := func() bool {
+		o.mu.Lock()
+		defer o.mu.Unlock()
+		return o.inFlight == 0 && len(o.ch) == 0 && !o.watcher.Parked()
+	}
+	for i := 0; i < 200000; i++ {
+		synctest.Wait()
+		if idle() {
+			break
+		}
+		if !e.d.Step() && !e.d.IdleAdvance(30*time.Minute) {
+			break
+		}
+	}
+	if !idle() {
+		r.Trouble("handlers did not return: %v", e.d.Sim.TaskStates())
+		return false
+	}
+	if !o.watcher.Done() {
+		o.ending.Store(true)
+		o.ch <- "<!-- end of run -->"
+		e.d.Run(2000, o.watcher.Done)
+	}
+	return true
+}
+
+// window returns the oldest page that may still be the configured one and the newest that may already be (o.mu held).
+// Delivery k has certainly replaced its predecessors once the watcher has taken it off the channel, it has certainly
+// been installed once the watcher waits for the next delivery; in between either page may be the configured one.
+func (o *c07PageObs) window() (lo, hi int) {
+	recv := o.fed - len(o.ch)
+	if recv == 0 {
+		return 0, 0
+	}
+	if len(o.ch) == 0 && !o.watcher.Parked() && !o.watcher.Done() {
+		return recv, recv // blocked in the channel receive: everything delivered is installed
+	}
+	return recv - 1, recv
+}
+
+// c07PageRace turns the run into a statement-level one: handlers are adopted as tasks, fabio's watchNoRouteHTML runs
+// as a task fed by the driver.
+func c07PageRace(r *simcore.Run, e *h2Env, sc *c07Scenario, cfg *config.Config) *c07PageObs {
+	o := &c07PageObs{pages: []string{sc.NoRouteHTML}, ch: make(chan string, len(sc.Changes)+1),
+		perConn: map[string]int{}, entry: map[string]int{}, exit: map[string]int{}}
+	for _, c := range sc.Changes {
+		o.pages = append(o.pages, c.HTML)
+	}
+	registry.Default = &c07Backend{html: o.ch}
+	e.d.Stick = sc.Stick
+	// the handler itself and the page store at statement granularity; proxy.responseWriter and the director stay
+	// whole (net/http and ReverseProxy call them back under their own locks)
+	e.d.Sim.Activate("proxy:*HTTPProxy.ServeHTTP", "noroute", "main:watchNoRouteHTML")
+	o.watcher = e.d.Sim.Spawn("watchNoRouteHTML", func() { watchNoRouteHTML(cfg) })
+	// should the watcher survive endWatcher (a run that ends in trouble), it spins on its closed channel at teardown until
+	// this many statements are used up (handlers execute far fewer statements of ServeHTTP)
+	e.d.Sim.StopBudget = 200
+	e.d.AddSource(func() []simcore.Event {
+		o.mu.Lock()
+		defer o.mu.Unlock()
+		if o.closed || o.fed >= len(sc.Changes) {
+			return nil
+		}
+		c := sc.Changes[o.fed]
+		if !c.Anytime && o.inNoRoute == 0 {
+			return nil
+		}
+		return []simcore.Event{{Key: "noroute-page-delivery", Weight: 2, Fire: func() {
+			o.mu.Lock()
+			o.fed++
+			n := o.fed
+			o.ch <- c.HTML // never blocks: the channel holds every delivery of the run
+			o.mu.Unlock()
+			r.Tracef("registry delivers no-route page #%d (%d bytes)", n, len(c.HTML))
+		}}}
+	})
+	e.wrap = func(h http.Handler) http.Handler {
+		return http.HandlerFunc(func(w http.ResponseWriter, req *http.Request) {
+			id := req.Header.Get("X-Sim-Id")
+			e.mu.Lock()
+			rq := e.script[id]
+			e.mu.Unlock()
+			noRoute := rq != nil && rq.Route < 0
+			o.mu.Lock()
+			k := o.perConn[req.RemoteAddr]
+			o.perConn[req.RemoteAddr] = k + 1
+			o.entry[id], _ = o.window()
+			o.inFlight++
+			if noRoute {
+				o.inNoRoute++
+			}
+			o.mu.Unlock()
+			defer func() {
+				o.mu.Lock()
+				o.inFlight--
+				if noRoute {
+					o.inNoRoute--
+				}
+				o.mu.Unlock()
+			}()
+			// http.ErrAbortHandler is net/http's own way of aborting a response (ReverseProxy uses it when an upstream
+			// dies inside its body): it is passed on untouched; any other panic is recorded by the task layer
+			abort := false
+			defer func() {
+				if abort {
+					panic(http.ErrAbortHandler)
+				}
+			}()
+			defer simhook.Adopt(fmt.Sprintf("h/%s/%d", req.RemoteAddr, k))()
+			defer func() {
+				if v := recover(); v != nil {
+					if v == http.ErrAbortHandler {
+						abort = true
+						return
+					}
+					panic(v)
+				}
+			}()
+			h.ServeHTTP(w, req)
+			o.mu.Lock()
+			_, o.exit[id] = o.window()
+			o.mu.Unlock()
+		})
+	}
+	return o
+}
+
+// admissible returns the pages that were the configured one at some instant while request id was inside the handler.
+func (o *c07PageObs) admissible(id string) []string {
+	o.mu.Lock()
+	defer o.mu.Unlock()
+	lo, ok := o.entry[id]
+	if !ok {
+		lo = 0
+	}
+	hi, ok := o.exit[id]
+	if !ok {
+		_, hi = o.window()
+	}
+	if hi < lo {
+		hi = lo
+	}
+	return o.pages[lo : hi+1]
+}
+
 func runC07(r *simcore.Run) {
 	sc := c07Gen(r.Gen, r.Thorough())
 	r.SetSample(sc)
@@ -273,6 +513,16 @@ func runC07(r *simcore.Run) {
 	noroute.SetHTML(sc.NoRouteHTML)
 	e := h2NewEnv(r, cfg, c07Table(sc))
 	defer e.finish()
+	var obs *c07PageObs
+	if sc.Tasked {
+		obs = c07PageRace(r, e, sc, cfg)
+		// teardown (before e.finish): a watcher that is still there leaves its channel receive
+		defer close(obs.ch)
+		prev := log.Writer()
+		log.SetOutput(c07LogSeam{obs})
+		defer log.SetOutput(prev)
+		r.Probe("statement_level_run")
+	}
 	e.serve(nil)
 	for _, rt := range sc.Routes {
 		e.upstream(rt.Key, simnet.ListenOpts{}, nil)
@@ -281,18 +531,22 @@ func runC07(r *simcore.Run) {
 		e.client(&sc.Clients[i])
 	}
 	if !e.run(400000, 30*time.Minute) {
-		r.Trouble("clients did not finish")
+		r.Trouble("clients did not finish: %v", e.d.Sim.TaskStates())
+		return
+	}
+	// a client may have its answer before the handler has executed its last statements
+	if obs != nil && !obs.endWatcher(r, e) {
 		return
 	}
 	r.Nontrivial()
 	for ci := range sc.Clients {
 		for qi := range sc.Clients[ci].Reqs {
-			c07Check(r, e, sc, &sc.Clients[ci].Reqs[qi])
+			c07Check(r, e, sc, obs, &sc.Clients[ci].Reqs[qi])
 		}
 	}
 }
 
-func c07Check(r *simcore.Run, e *h2Env, sc *c07Scenario, rq *h2Req) {
+func c07Check(r *simcore.Run, e *h2Env, sc *c07Scenario, obs *c07PageObs, rq *h2Req) {
 	res := e.results[rq.ID]
 	seen := e.seen[rq.ID]
 	faulted := rq.Abort > 0 || rq.Resp.ResetAt != 0
@@ -314,10 +568,32 @@ func c07Check(r *simcore.Run, e *h2Env, sc *c07Scenario, rq *h2Req) {
 		if faulted {
 			return
 		}
+		// the page: exactly one of the pages that were the configured one while fabio handled the request (without
+		// statement-level page deliveries that is the page configured last before the run), complete and well framed
+		pages := []string{sc.NoRouteHTML}
+		if obs != nil {
+			pages = obs.admissible(rq.ID)
+			if len(pages) > 1 {
+				r.Probe("noroute_request_overlaps_page_replacement")
+			}
+		}
+		var descs []string
+		for _, p := range pages {
+			descs = append(descs, c07PageDesc(p))
+		}
 		if res.Err != nil || res.Status != want {
 			r.Fail("noroute", "status", "%s has no route: status=%d err=%v, configured %d", what, res.Status, res.Err, want)
-		} else if rq.Method != "HEAD" && string(res.Body) != sc.NoRouteHTML {
-			r.Fail("noroute", "page", "%s has no route: body %q, configured page %q", what, res.Body, sc.NoRouteHTML)
+		} else if rq.Method != "HEAD" {
+			ok := false
+			for _, p := range pages {
+				ok = ok || string(res.Body) == p
+			}
+			if res.BodyErr != nil {
+				r.Fail("noroute", "page-transfer", "%s has no route: the transfer of the page failed after %d bytes: %v (Content-Length %d; configured while the request was handled: %s)",
+					what, len(res.Body), res.BodyErr, res.CL, strings.Join(descs, " | "))
+			} else if !ok {
+				r.Fail("noroute", "page", "%s has no route: body %s, configured while the request was handled: %s", what, c07PageDesc(string(res.Body)), strings.Join(descs, " | "))
+			}
 		}
 		return
 	}
